@@ -377,10 +377,13 @@ def r4_1(ctx, R, otypes):
             for rb, e in returned_exprs(ctx, b):
                 if e[0] == "agg" and e[1].startswith(path + "::"):
                     ops = __import__('lib_inter').flat_ops(ctx, e)
+                    holder = {}
                     for v_ in list(ops.values()):
                         # counters kept in a nested private struct: its fields count as the collection's
                         if v_[0] == "agg" and len(v_) > 3 and v_[1].split("::")[0] in path and v_[1].rsplit("::", 1)[0] in ctx.facts.adts:
                             ops.update(zip(v_[3], v_[2]))
+                            for nm_ in v_[3]:
+                                holder[nm_] = v_        # the struct value the numbering closure has to borrow mutably
                     o = og.get(path)
                     i = [x for x in w if x != o][0] if o else None
 
@@ -420,6 +423,8 @@ def r4_1(ctx, R, otypes):
                                     if strip_refs(v) in caps or v in caps or any(c == v for c in caps):
                                         inc_ok = True
                                     if v[0] == "multi" and any(c == v for c in caps):
+                                        inc_ok = True
+                                    if i in holder and holder[i] in caps:
                                         inc_ok = True
                     ctx.ob("R4.1", b, "from_iter:incoming=count,outgoing=0", bool(zero) and inc_ok, b.loc(rb),
                            "outgoing=%s incoming=%s" % (expr_str(ops[o]) if o else None, expr_str(ops[i]) if i else None))
